@@ -14,20 +14,21 @@ theorem getFunc_true_np {env : Env} (hw : EnvWF env) (k : Nat × Nat) : NoPanic 
     simp [this, NoPanic]
   · simp [NoPanic]
 
-theorem getFuncOpt_true_np {env : Env} (hw : EnvWF env) (pkg : Nat) (o : Option Nat) :
-    NoPanic (getFuncOpt true env pkg o) := by
+/-- the repaired loader looks a rule's function up in a map that holds the functions themselves: nothing is indexed -/
+theorem getFuncOpt_true_np (env : Env) (own : List (Nat × Nat)) (pkg : Nat) (o : Option Nat) :
+    NoPanic (getFuncOpt true env own pkg o) := by
   unfold getFuncOpt
   split
   · simp [NoPanic]
   · rename_i n
-    have := getFunc_true_np hw (pkg, n)
-    split <;> simp_all [NoPanic]
+    simp only [if_true, ownFunc]
+    cases ownLookup own n <;> simp [NoPanic]
 
-theorem loadRule_true_np {env : Env} (hw : EnvWF env) (pkg : Nat) (g : Nat × Nat) (r : RuleDecl) :
-    NoPanic (loadRule true env pkg g r) := by
+theorem loadRule_true_np (env : Env) (own : List (Nat × Nat)) (pkg : Nat) (g : Nat × Nat) (r : RuleDecl) :
+    NoPanic (loadRule true env own pkg g r) := by
   unfold loadRule
-  have h1 := getFuncOpt_true_np hw pkg r.doFn
-  have h2 := getFuncOpt_true_np hw pkg r.filtFn
+  have h1 := getFuncOpt_true_np env own pkg r.doFn
+  have h2 := getFuncOpt_true_np env own pkg r.filtFn
   split
   · rename_i p hp; rw [hp] at h1; exact h1
   · simp [NoPanic]
@@ -36,13 +37,13 @@ theorem loadRule_true_np {env : Env} (hw : EnvWF env) (pkg : Nat) (g : Nat × Na
     · simp [NoPanic]
     · split <;> simp [NoPanic]
 
-theorem loadRules_true_np {env : Env} (hw : EnvWF env) (pkg : Nat) (g : Nat × Nat) :
-    ∀ (rs : List RuleDecl), NoPanic (loadRules true env pkg g rs)
+theorem loadRules_true_np (env : Env) (own : List (Nat × Nat)) (pkg : Nat) (g : Nat × Nat) :
+    ∀ (rs : List RuleDecl), NoPanic (loadRules true env own pkg g rs)
   | [] => by simp [loadRules, NoPanic]
   | r :: rs => by
     unfold loadRules
-    have h1 := loadRule_true_np hw pkg g r
-    have h2 := loadRules_true_np hw pkg g rs
+    have h1 := loadRule_true_np env own pkg g r
+    have h2 := loadRules_true_np env own pkg g rs
     split
     · rename_i p hp; rw [hp] at h1; exact h1
     · simp [NoPanic]
@@ -50,28 +51,28 @@ theorem loadRules_true_np {env : Env} (hw : EnvWF env) (pkg : Nat) (g : Nat × N
       · simp [NoPanic]
       · exact h2
 
-theorem loadGroup_true_np {env : Env} (hw : EnvWF env) (pkg pfx file : Nat) (rejected) (res : RuleSet) (g : GroupDecl) :
-    NoPanic (loadGroup true env pkg pfx file rejected res g) := by
+theorem loadGroup_true_np (env : Env) (own : List (Nat × Nat)) (pkg pfx file : Nat) (rejected) (res : RuleSet)
+    (g : GroupDecl) : NoPanic (loadGroup true env own pkg pfx file rejected res g) := by
   unfold loadGroup
   simp only
   split
   · simp [NoPanic]
   · split
     · simp [NoPanic]
-    · have := loadRules_true_np hw pkg (pfx, g.name) g.rules
+    · have := loadRules_true_np env own pkg (pfx, g.name) g.rules
       split
       · simp [NoPanic]
       · simp [NoPanic]
       · rename_i p hp; rw [hp] at this; exact this
 
-theorem loadGroups_true_np {env : Env} (hw : EnvWF env) (pkg pfx file : Nat) (rejected) :
-    ∀ (gs : List GroupDecl) (res : RuleSet), NoPanic (loadGroups true env pkg pfx file rejected res gs)
+theorem loadGroups_true_np (env : Env) (own : List (Nat × Nat)) (pkg pfx file : Nat) (rejected) :
+    ∀ (gs : List GroupDecl) (res : RuleSet), NoPanic (loadGroups true env own pkg pfx file rejected res gs)
   | [], res => by simp [loadGroups, NoPanic]
   | g :: gs, res => by
     unfold loadGroups
-    have h1 := loadGroup_true_np hw pkg pfx file rejected res g
+    have h1 := loadGroup_true_np env own pkg pfx file rejected res g
     split
-    · exact loadGroups_true_np hw pkg pfx file rejected gs _
+    · exact loadGroups_true_np env own pkg pfx file rejected gs _
     · exact h1
 
 theorem compileFuncs_np : ∀ (ds : List FuncDecl) (env : Env), NoPanic (compileFuncs env ds).2
@@ -86,9 +87,8 @@ theorem compileFuncs_np : ∀ (ds : List FuncDecl) (env : Env), NoPanic (compile
         · simp [NoPanic]
         · exact compileFuncs_np ds _
 
-theorem loadUnit_true_np {env : Env} (hw : EnvWF env) (pkg pfx : Nat) (rejected) (u : FileUnit) :
+theorem loadUnit_true_np (env : Env) (pkg pfx : Nat) (rejected) (u : FileUnit) :
     NoPanic (loadUnit true env pkg pfx rejected u).2 := by
-  have hx := compileFilterFuncs_ext true env u
   have hc : NoPanic (compileFilterFuncs true env u).2 := by
     unfold compileFilterFuncs
     split
@@ -96,59 +96,51 @@ theorem loadUnit_true_np {env : Env} (hw : EnvWF env) (pkg pfx : Nat) (rejected)
     · exact compileFuncs_np _ _
   unfold loadUnit
   split
-  · rename_i e1 h1
-    rw [h1] at hx
-    exact loadGroups_true_np (hx.2 hw) pkg pfx u.file rejected u.groups _
+  · exact loadGroups_true_np _ _ pkg pfx u.file rejected u.groups _
   · simp [NoPanic]
   · rename_i e1 p h1; rw [h1] at hc; exact hc
 
-theorem loadBundleFiles_true_np (pfx : Nat) (rejected) : ∀ (us : List FileUnit) {env : Env}, EnvWF env →
+theorem loadBundleFiles_true_np (pfx : Nat) (rejected) : ∀ (us : List FileUnit) (env : Env),
     NoPanic (loadBundleFiles true env pfx rejected us).2
-  | [], env, _ => by simp [loadBundleFiles, NoPanic]
-  | u :: us, env, hw => by
-    have h1 := loadUnit_true_np hw gorules pfx rejected u
-    have hx := loadUnit_ext true env gorules pfx rejected u
+  | [], env => by simp [loadBundleFiles, NoPanic]
+  | u :: us, env => by
+    have h1 := loadUnit_true_np env gorules pfx rejected u
     unfold loadBundleFiles
     split
     · simp [NoPanic]
     · split
       · rename_i e1 rs hu
-        rw [hu] at hx
-        have h2 := loadBundleFiles_true_np pfx rejected us (hx.2 hw)
+        have h2 := loadBundleFiles_true_np pfx rejected us e1
         split
         · simp [NoPanic]
         · exact h2
       · simp [NoPanic]
       · rename_i e1 p hu; rw [hu] at h1; exact h1
 
-theorem loadBundles_true_np (rejected) : ∀ (bs : List BundleDecl) {env : Env}, EnvWF env →
+theorem loadBundles_true_np (rejected) : ∀ (bs : List BundleDecl) (env : Env),
     NoPanic (loadBundles true env rejected bs).2
-  | [], env, _ => by simp [loadBundles, NoPanic]
-  | b :: bs, env, hw => by
-    have h1 := loadBundleFiles_true_np b.pfx rejected b.files hw
-    have hx := loadBundleFiles_ext true b.pfx rejected b.files env
+  | [], env => by simp [loadBundles, NoPanic]
+  | b :: bs, env => by
+    have h1 := loadBundleFiles_true_np b.pfx rejected b.files env
     unfold loadBundles
     split
     · simp [NoPanic]
     · split
       · rename_i e1 rss hb
-        rw [hb] at hx
-        have h2 := loadBundles_true_np rejected bs (hx.2 hw)
+        have h2 := loadBundles_true_np rejected bs e1
         split
         · simp [NoPanic]
         · exact h2
       · exact h1
 
-theorem loadFile_true_np {env : Env} (hw : EnvWF env) (r : Req) : NoPanic (loadFile true env r).2 := by
-  have h1 := loadBundles_true_np r.rejected r.bundles hw
-  have hx := loadBundles_ext true r.rejected r.bundles env
+theorem loadFile_true_np (env : Env) (r : Req) : NoPanic (loadFile true env r).2 := by
+  have h1 := loadBundles_true_np r.rejected r.bundles env
   unfold loadFile
   split
   · simp [NoPanic]
   · rename_i e1 p hb; rw [hb] at h1; exact h1
   · rename_i e1 imported hb
-    rw [hb] at hx
-    have h2 := loadUnit_true_np (hx.2 hw) r.pkgPath 0 r.rejected r.unit
+    have h2 := loadUnit_true_np e1 r.pkgPath 0 r.rejected r.unit
     split
     · split
       · simp [NoPanic]
@@ -159,8 +151,9 @@ theorem loadFile_true_np {env : Env} (hw : EnvWF env) (r : Req) : NoPanic (loadF
         | panic p => exact absurd hm mergeFrom_not_panic
     · exact h2
 
-theorem load_true_np {e : Engine} (hw : EngineWF e) (r : Req) : NoPanic (load true e r).2 := by
-  have h1 := loadFile_true_np hw.1 r
+/-- the repaired `Load` / `LoadFromIR` answers `ok` or an error on every engine state -/
+theorem load_true_np (e : Engine) (r : Req) : NoPanic (load true e r).2 := by
+  have h1 := loadFile_true_np e.env r
   unfold load
   split
   · simp [NoPanic]
